@@ -218,6 +218,10 @@ Definition site_shape_ok (s : site) : bool :=
   end.
 
 (* ---------- entry points for the correspondence harness ---------- *)
+(* an arbitrary plan (the glue builds: one failing call, e.g. the CreateTemp call, combined with a cut) *)
+Definition run_c02_plan (pl : plan) (P : proto) (init : list (positive * file)) (chunks : list bytes) (fin : ctl)
+  : ctl * world :=
+  run_proto pl fresh_hi P chunks fin (W (fs_of_list init) 0 []).
 Definition run_c02 (n : option nat) (P : proto) (init : list (positive * file)) (chunks : list bytes) (fin : ctl)
   : ctl * world :=
   run_proto (match n with Some k => crash_plan k | None => nofault end) fresh_hi P chunks fin (W (fs_of_list init) 0 []).
